@@ -392,4 +392,22 @@ def StreamSpec.cfg (s : StreamSpec) (fpp : Nat) : Cfg :=
   { fpp := fpp, frameSize := s.frameSize, latency := Gen.C16.latencyBase + s.sampleRate,
     startTs := s.now, ssrc := s.ssrc, wire := s.wire }
 
+/-! ### sources whose reads are short before the end
+
+`readframes(n)` may return fewer than `n` frames in mid-stream (pyatv's own
+`BufferedIOBaseSource` does on a buffer underrun).  `_send_packet` treats every non-empty
+short read alike: it zero-pads it to one packet and goes on reading.  A source delivering
+the non-empty reads `chunks` (each at most one packet) is therefore streamed exactly like
+the byte string in which that padding is made explicit, read in whole packets:
+`padChunks`.  (`framesOf` on a whole-packet read returns it unchanged; on the padded last
+chunk likewise.)  This equivalence is validated by the correspondence runs (sources with a
+read-size schedule, the real BufferedIOBaseSource), not proved; the theorems about
+`packetize … (padChunks ps chunks) …` then say what the packets carry. -/
+
+/-- one read, zero-padded to a packet as `_send_packet` does. -/
+def padChunk (ps : Nat) (chunk : Bytes) : Bytes := chunk ++ List.replicate (ps - chunk.length) 0
+
+/-- the stream of a source that delivers `chunks`, with the code's padding made explicit. -/
+def padChunks (ps : Nat) (chunks : List Bytes) : Bytes := (chunks.map (padChunk ps)).flatten
+
 end PyatvModel.C16
